@@ -1077,6 +1077,22 @@ def generate_search_data_ctl(sd_mod):
     return "\n".join(out) + "\nend Gen.SearchDataCtl\n", []
 
 
+def generate_evolvent_ctl(cls):
+    """statement trees (same `Stmt`) of the public methods of `Evolvent` and of the two affine maps they call"""
+    out = ["-- GENERATED by harness/src2lean.py from the SOURCE TEXT of iOpt/evolvent/evolvent.py under /repo; do not edit.\n"
+           "import IOptGen.ProcessSrc\n"
+           "/-!\n`Evolvent.__init__`, `SetBounds`, `GetImage`, `GetInverseImage`, `GetPreimages`, `__TransformP2D`, `__TransformD2P` as statement trees\n"
+           "(`Gen.ProcSrc.Stmt`): what is stored, what is called in which order, what is returned.\n-/\nnamespace Gen.EvolventCtl\nopen Gen.ProcSrc\n"]
+    for name, attr in (("init", "__init__"), ("setBounds", "SetBounds"), ("getImage", "GetImage"), ("getInverseImage", "GetInverseImage"),
+                       ("getPreimages", "GetPreimages"), ("transformP2D", "_Evolvent__TransformP2D"), ("transformD2P", "_Evolvent__TransformD2P")):
+        fa = func_ast(cls.__dict__[attr])
+        params = [a.arg for a in fa.args.args]
+        out.append(f"/-- parameters of `Evolvent.{attr.replace('_Evolvent', '')}` -/\ndef {name}Params : List String := "
+                   + "[" + ", ".join(_lean_str(x) for x in params) + "]\n")
+        out.append(f"/-- body of `Evolvent.{attr.replace('_Evolvent', '')}` -/\ndef {name} : List Stmt :=\n  " + _stmts_to_lean(fa.body, 2) + "\n")
+    return "\n".join(out) + "\nend Gen.EvolventCtl\n", []
+
+
 def problem_classes():
     from iOpt.problems.rastrigin import Rastrigin
     from iOpt.problems.xsquared import XSquared
@@ -1203,6 +1219,9 @@ if __name__ == "__main__":
     if "--s3" in sys.argv:
         from iOpt.problems.stronginC3 import StronginC3
         text, errors = generate_s3(StronginC3)
+    if "--evctl" in sys.argv:
+        from iOpt.evolvent.evolvent import Evolvent
+        text, errors = generate_evolvent_ctl(Evolvent)
     if "--sdctl" in sys.argv:
         import iOpt.method.search_data as sdm
         text, errors = generate_search_data_ctl(sdm)
